@@ -16,10 +16,12 @@ import (
 
 // Family concurrent (C18, dynamic support): K freshly generated packages (parsers with @error
 // recovery, parsers with _onBounds, lexers with and without modes) are linked into ONE program
-// built with `go build -race`. The program runs every (package, input) job sequentially and
-// records the outputs, then runs the same jobs (each several times, shuffled) on N goroutines
-// that all start together, for R rounds under GOMAXPROCS 1, 4 and 16, every goroutine creating
-// its own parser/lexer instances through the package's `Run`; then once more sequentially.
+// built with `go build -race`. The program is first run in mode `seq` (every (package, input)
+// job once, one after another: the reference outputs) and then, one fresh process per GOMAXPROCS
+// value (1, 4, 16) so that every concurrent phase starts COLD (nothing has run yet that could have
+// warmed a cache), in mode `conc`: the same jobs (each several times, shuffled) on N goroutines
+// that all start together, for R rounds, every goroutine creating its own parser/lexer instances
+// through the package's `Run`; then once more sequentially in that same process.
 // The user halves of the packages (scripted lexer, action methods, the loop around
 // simplelexer.ReadToken) call runtime.Gosched() at every token, so that even with one P the
 // instances interleave at token granularity.
@@ -63,26 +65,30 @@ func (r *rng) next() uint64 {
 	return z ^ (z >> 31)
 }
 
-func main() {
-	// usage: runner <jobs file> <goroutines> <rounds> <copies> <seed> <procs,procs,…>
-	f, err := os.Open(os.Args[1])
+func readLines(path string) []string {
+	f, err := os.Open(path)
 	if err != nil {
 		panic(err)
 	}
-	nG, _ := strconv.Atoi(os.Args[2])
-	rounds, _ := strconv.Atoi(os.Args[3])
-	copies, _ := strconv.Atoi(os.Args[4])
-	seed, _ := strconv.ParseUint(os.Args[5], 10, 64)
-	var procs []int
-	for _, p := range strings.Split(os.Args[6], ",") {
-		v, _ := strconv.Atoi(p)
-		procs = append(procs, v)
-	}
-	var jobs []job
+	defer f.Close()
+	var out []string
 	sc := bufio.NewScanner(f)
 	sc.Buffer(make([]byte, 1<<20), 1<<26)
 	for sc.Scan() {
-		fs := strings.Fields(sc.Text())
+		out = append(out, sc.Text())
+	}
+	return out
+}
+
+func main() {
+	// usage: runner <jobs file> seq
+	//        runner <jobs file> conc <reference outputs> <goroutines> <rounds> <copies> <seed> <gomaxprocs>
+	// seq runs every job once, one after another, in a fresh process and prints the outputs.
+	// conc starts COLD (nothing has run in this process), runs the jobs concurrently and compares
+	// with the reference, then runs them once more sequentially.
+	var jobs []job
+	for _, l := range readLines(os.Args[1]) {
+		fs := strings.Fields(l)
 		if len(fs) < 2 {
 			continue
 		}
@@ -97,62 +103,75 @@ func main() {
 	out := bufio.NewWriter(os.Stdout)
 	defer out.Flush()
 
-	// 1. one after another
-	seq := make([]string, len(jobs))
-	for i, j := range jobs {
-		seq[i] = runs[j.pkg](j.in, j.budget)
-		fmt.Fprintf(out, "SEQ %d %s\n", i, seq[i])
+	if os.Args[2] == "seq" {
+		for i, j := range jobs {
+			fmt.Fprintf(out, "SEQ %d %s\n", i, runs[j.pkg](j.in, j.budget))
+		}
+		fmt.Fprintf(out, "DONE %d 0\n", len(jobs))
+		return
 	}
-	out.Flush()
 
-	// 2. all at once
-	r := &rng{s: seed}
+	seq := make([]string, len(jobs))
+	for _, l := range readLines(os.Args[3]) {
+		fs := strings.SplitN(l, " ", 3)
+		if len(fs) == 3 && fs[0] == "SEQ" {
+			i, _ := strconv.Atoi(fs[1])
+			if i < len(seq) {
+				seq[i] = fs[2]
+			}
+		}
+	}
+	nG, _ := strconv.Atoi(os.Args[4])
+	rounds, _ := strconv.Atoi(os.Args[5])
+	copies, _ := strconv.Atoi(os.Args[6])
+	seed, _ := strconv.ParseUint(os.Args[7], 10, 64)
+	np, _ := strconv.Atoi(os.Args[8])
+
+	r := &rng{s: seed + uint64(np)*1000003}
 	execs := 0
 	var mu sync.Mutex
 	ndiff := 0
-	for _, np := range procs {
-		runtime.GOMAXPROCS(np)
-		for round := 0; round < rounds; round++ {
-			var order []int
-			for c := 0; c < copies; c++ {
-				for i := range jobs {
-					order = append(order, i)
-				}
+	runtime.GOMAXPROCS(np)
+	for round := 0; round < rounds; round++ {
+		var order []int
+		for c := 0; c < copies; c++ {
+			for i := range jobs {
+				order = append(order, i)
 			}
-			for i := len(order) - 1; i > 0; i-- {
-				k := int(r.next() % uint64(i+1))
-				order[i], order[k] = order[k], order[i]
-			}
-			start := make(chan struct{})
-			var wg sync.WaitGroup
-			for g := 0; g < nG; g++ {
-				wg.Add(1)
-				go func(g int) {
-					defer wg.Done()
-					<-start
-					for k := g; k < len(order); k += nG {
-						i := order[k]
-						got := runs[jobs[i].pkg](jobs[i].in, jobs[i].budget)
-						runtime.Gosched()
-						if got != seq[i] {
-							mu.Lock()
-							if ndiff < 20 {
-								fmt.Fprintf(out, "DIFF %d %d %d %s\n", np, round, i, got)
-							}
-							ndiff++
-							mu.Unlock()
-						}
-					}
-				}(g)
-			}
-			close(start)
-			wg.Wait()
-			execs += len(order)
 		}
+		for i := len(order) - 1; i > 0; i-- {
+			k := int(r.next() % uint64(i+1))
+			order[i], order[k] = order[k], order[i]
+		}
+		start := make(chan struct{})
+		var wg sync.WaitGroup
+		for g := 0; g < nG; g++ {
+			wg.Add(1)
+			go func(g int) {
+				defer wg.Done()
+				<-start
+				for k := g; k < len(order); k += nG {
+					i := order[k]
+					got := runs[jobs[i].pkg](jobs[i].in, jobs[i].budget)
+					runtime.Gosched()
+					if got != seq[i] {
+						mu.Lock()
+						if ndiff < 20 {
+							fmt.Fprintf(out, "DIFF %d %d %d %s\n", np, round, i, got)
+						}
+						ndiff++
+						mu.Unlock()
+					}
+				}
+			}(g)
+		}
+		close(start)
+		wg.Wait()
+		execs += len(order)
 	}
 	runtime.GOMAXPROCS(runtime.NumCPU())
 
-	// 3. one after another again
+	// one after another again, in the process that ran them concurrently
 	for i, j := range jobs {
 		if got := runs[j.pkg](j.in, j.budget); got != seq[i] {
 			fmt.Fprintf(out, "LEAK %d %s\n", i, got)
@@ -205,7 +224,7 @@ func init() {
 		}
 		jobsPer, goroutines, rounds, copies, procs := 40, 8, 3, 2, "1,4,16"
 		if c.Tier == "thorough" {
-			jobsPer, goroutines, rounds, copies, procs = 120, 16, 6, 3, "1,2,4,16,64"
+			jobsPer, goroutines, rounds, copies, procs = 120, 16, 5, 3, "1,2,4,16,64"
 		}
 		gens := c18GenBatch(c, root, nP, nL)
 		lap("generate")
@@ -255,6 +274,9 @@ func init() {
 				}
 			} else {
 				ins := g.LSpec.genLexInputs(c.Rng, jobsPer)
+				if len(ins) > jobsPer {
+					ins = ins[:jobsPer]
+				}
 				for _, in := range ins {
 					xs := make([]int, len(in))
 					for i, b := range in {
@@ -316,61 +338,97 @@ func init() {
 		lap("build")
 		c.Counters["race-detector-active"] = map[bool]int{true: 1, false: 0}[race]
 
-		cmd := exec.Command(bin, jobsFile, strconv.Itoa(goroutines), strconv.Itoa(rounds), strconv.Itoa(copies), strconv.FormatUint(c.Seed, 10), procs)
-		cmd.Env = append(os.Environ(), "GORACE=halt_on_error=0 exitcode=0")
-		var so, se bytes.Buffer
-		cmd.Stdout, cmd.Stderr = &so, &se
-		done := make(chan error, 1)
-		cmd.Start()
-		go func() { done <- cmd.Wait() }()
 		limit := 600 * time.Second
 		if c.Tier == "thorough" {
 			limit = 3000 * time.Second
 		}
-		var runErr error
-		timedOut := false
-		select {
-		case runErr = <-done:
-		case <-time.After(limit):
-			cmd.Process.Kill()
-			<-done
-			timedOut = true
+		// runProc runs the runner once; returns stdout, stderr, error text ("" = finished)
+		runProc := func(args ...string) (string, string, string) {
+			cmd := exec.Command(bin, args...)
+			cmd.Env = append(os.Environ(), "GORACE=halt_on_error=0 exitcode=0")
+			var so, se bytes.Buffer
+			cmd.Stdout, cmd.Stderr = &so, &se
+			done := make(chan error, 1)
+			if err := cmd.Start(); err != nil {
+				return "", "", "cannot start: " + err.Error()
+			}
+			go func() { done <- cmd.Wait() }()
+			select {
+			case err := <-done:
+				if !strings.Contains(so.String(), "\nDONE ") && !strings.HasPrefix(so.String(), "DONE ") {
+					return so.String(), se.String(), fmt.Sprintf("crashed (%v)", err)
+				}
+			case <-time.After(limit):
+				cmd.Process.Kill()
+				<-done
+				return so.String(), se.String(), "did not finish within " + limit.String()
+			}
+			return so.String(), se.String(), ""
 		}
-		lap("run")
 
 		seq := make([]string, len(jobs))
 		haveSeq := make([]bool, len(jobs))
 		diffs := map[int][]string{}
 		leaks := map[int]string{}
-		finished := false
 		execs := 0
-		sc := bufio.NewScanner(&so)
-		sc.Buffer(make([]byte, 1<<20), 1<<26)
-		for sc.Scan() {
-			l := sc.Text()
-			f := strings.SplitN(l, " ", 3)
-			switch f[0] {
-			case "SEQ":
-				i, _ := strconv.Atoi(f[1])
-				if i < len(seq) && len(f) == 3 {
-					seq[i], haveSeq[i] = f[2], true
+		var problems []string
+		var stderrAll strings.Builder
+		parse := func(stdout string) {
+			sc := bufio.NewScanner(strings.NewReader(stdout))
+			sc.Buffer(make([]byte, 1<<20), 1<<26)
+			for sc.Scan() {
+				l := sc.Text()
+				f := strings.SplitN(l, " ", 3)
+				switch f[0] {
+				case "SEQ":
+					i, _ := strconv.Atoi(f[1])
+					if i < len(seq) && len(f) == 3 {
+						seq[i], haveSeq[i] = f[2], true
+					}
+				case "DIFF":
+					g := strings.SplitN(l, " ", 5)
+					if len(g) == 5 {
+						i, _ := strconv.Atoi(g[3])
+						if len(diffs[i]) < 3 {
+							diffs[i] = append(diffs[i], fmt.Sprintf("GOMAXPROCS=%s round %s: `%s`", g[1], g[2], g[4]))
+						}
+					}
+				case "LEAK":
+					i, _ := strconv.Atoi(f[1])
+					if len(f) == 3 {
+						leaks[i] = f[2]
+					}
+				case "DONE":
+					if len(f) >= 2 {
+						n, _ := strconv.Atoi(f[1])
+						execs += n
+					}
 				}
-			case "DIFF":
-				g := strings.SplitN(l, " ", 5)
-				if len(g) == 5 {
-					i, _ := strconv.Atoi(g[3])
-					diffs[i] = append(diffs[i], fmt.Sprintf("GOMAXPROCS=%s round %s: `%s`", g[1], g[2], g[4]))
-				}
-			case "LEAK":
-				i, _ := strconv.Atoi(f[1])
-				if len(f) == 3 {
-					leaks[i] = f[2]
-				}
-			case "DONE":
-				finished = true
-				execs, _ = strconv.Atoi(f[1])
 			}
 		}
+		// reference: sequential, in its own process
+		so, se, bad := runProc(jobsFile, "seq")
+		refFile := filepath.Join(root, "seq.txt")
+		os.WriteFile(refFile, []byte(so), 0o644)
+		parse(so)
+		execs = 0
+		stderrAll.WriteString(se)
+		if bad != "" {
+			problems = append(problems, "sequential reference run "+bad+": "+trunc(strings.ReplaceAll(se, "\n", " ⏎ "), 1200))
+		}
+		// concurrent: one cold process per GOMAXPROCS value
+		for _, np := range strings.Split(procs, ",") {
+			if bad != "" {
+				break
+			}
+			so, se, b := runProc(jobsFile, "conc", refFile, strconv.Itoa(goroutines), strconv.Itoa(rounds), strconv.Itoa(copies), strconv.FormatUint(c.Seed, 10), np)
+			parse(so)
+			stderrAll.WriteString(se)
+			if b != "" {
+				problems = append(problems, "concurrent run with GOMAXPROCS="+np+" "+b+": "+trunc(strings.ReplaceAll(se, "\n", " ⏎ "), 1500))
+			}
+		}
+		lap("run")
 		for i, j := range jobs {
 			spec := ""
 			note := fmt.Sprintf("# C18 concurrent %s %s | %s | sequential: %s", j.g.Name, j.g.Kind, j.shown, trunc(seq[i], 300))
@@ -405,14 +463,11 @@ func init() {
 		c.Extra["copies_per_round"] = copies
 		c.Extra["gomaxprocs"] = procs
 
-		stderr := se.String()
-		sum := fmt.Sprintf("# C18 concurrent | %d packages, %d jobs, %d goroutines, %d rounds x GOMAXPROCS {%s} x %d copies", len(gens), len(jobs), goroutines, rounds, procs, copies)
+		stderr := stderrAll.String()
+		sum := fmt.Sprintf("# C18 concurrent | %d packages, %d jobs, %d goroutines, %d rounds x GOMAXPROCS {%s} (one cold process each) x %d copies", len(gens), len(jobs), goroutines, rounds, procs, copies)
 		or := ""
-		switch {
-		case timedOut:
-			or = "C18: concurrent run did not finish within " + limit.String()
-		case !finished:
-			or = fmt.Sprintf("C18: concurrent run crashed (%v): %s", runErr, trunc(strings.ReplaceAll(stderr, "\n", " ⏎ "), 1500))
+		if len(problems) > 0 {
+			or = "C18: concurrent run crashed or did not finish: " + strings.Join(problems, " || ")
 		}
 		c.EmitO(sum, sum, or)
 		rnote := "# C18 concurrent | race detector"
